@@ -200,11 +200,40 @@ package gtfs
 //@   loop 3 invariant csvOK(csv)
 //@   loop 3 decreases remaining(csv.csvReader)
 
+// the cell of the current row under header `name` ("" when the file has no such column): C01 "the value written in
+// that row under the corresponding column header"
+//@ pure func col(f *csv.File, name string) string = has(f.headerMap, name) ? f.currentRow.cells[f.headerMap[name]] : ""
+//@ pure func orDefault(s string, d string) string = s == "" ? d : s
+
+//@ func parseShapes$1
+//@   props C05 C08
+//@   requires 0 <= i && i < len(rows) && 0 <= j && j < len(rows)
+//@   comparator rows[i].ShapePtSequence < rows[j].ShapePtSequence
+//@   assigns nothing
+
+//@ func parseShapes$2
+//@   props C05 C08
+//@   requires 0 <= i && i < len(shapes) && 0 <= j && j < len(shapes)
+//@   comparator shapes[i].ID < shapes[j].ID
+//@   assigns nothing
+
 //@ func parseShapes
 //@   props C01 C05 C08 C09
 //@   requires csvOK(csv)
-//@   loop 1 invariant csvOK(csv)
+//@   ensures [shapes-ordered-by-id] forall a int, b int :: 0 <= a && a < b && b < len(result) ==> result[a].ID <= result[b].ID
+//@   loop 1 invariant csvOK(csv) && shapeIDToRowData != nil && fresh(shapeIDToRowData) && shapeIDToRowData != csv.headerMap
+//@   loop 1 invariant forall s string :: has(shapeIDToRowData, s) ==> fresh(shapeIDToRowData[s])
 //@   loop 1 decreases remaining(csv.csvReader)
+//@   loop 2 invariant fresh(shapes)
+//@   loop 2 step [points-follow-the-rows-sorted-by-sequence] len(shapes) == athead(2, len(shapes)) + 1 && shapes[len(shapes) - 1].ID == shapeID && len(shapes[len(shapes) - 1].Points) == len(rows) && (forall k int :: 0 <= k && k < len(rows) ==> shapes[len(shapes) - 1].Points[k].Latitude == rows[k].ShapePtLat && shapes[len(shapes) - 1].Points[k].Longitude == rows[k].ShapePtLon && shapes[len(shapes) - 1].Points[k].Distance == rows[k].ShapeDistTraveled)
+//@   loop 2 step [rows-ascending-by-sequence] forall a int, b int :: 0 <= a && a < b && b < len(rows) ==> rows[a].ShapePtSequence <= rows[b].ShapePtSequence
+//@   loop 2 step [earlier-shapes-kept] forall k int :: 0 <= k && k < athead(2, len(shapes)) ==> shapes[k] == athead(2, shapes[k])
+//@   loop 3 invariant len(points) == $i && fresh(points) && fresh(shapes)
+//@   loop 3 invariant [lat] forall k int :: 0 <= k && k < $i ==> points[k].Latitude == rows[k].ShapePtLat
+//@   loop 3 invariant [lon] forall k int :: 0 <= k && k < $i ==> points[k].Longitude == rows[k].ShapePtLon
+//@   loop 3 invariant [dist] forall k int :: 0 <= k && k < $i ==> points[k].Distance == rows[k].ShapeDistTraveled
+//@   loop 3 invariant forall a int, b int :: 0 <= a && a < b && b < len(rows) ==> rows[a].ShapePtSequence <= rows[b].ShapePtSequence
+//@   loop 3 invariant forall k int :: 0 <= k && k < len(shapes) ==> shapes[k] == athead(2, shapes[k])
 
 //@ func parseFrequencies
 //@   props C01 C05 C08 C09 C10
